@@ -42,6 +42,7 @@ func H_Policy() {
 	pol := p.real()
 
 	prog, raw, err, rawErr, code := vCompile(pol)
+	vAssert(code != 4, "C06.terminates")
 	vAssert(code == 0, "C07.nopanic")
 	if code != 0 {
 		return
